@@ -52,6 +52,8 @@ def variant_flags(variant):
     if variant == "san":
         return common + ["-O1", "-fsanitize=address,undefined", "-fno-sanitize-recover=undefined"], \
                ["-fsanitize=address,undefined"]
+    if variant == "dbg":   # diagnosis only: ninja's internal asserts enabled
+        return [c for c in common if c != "-DNDEBUG"] + ["-O0"], []
     return common + ["-O1"], []
 
 
@@ -59,7 +61,7 @@ def gen(variant, src_override=None):
     """src_override: {basename: path} for counterfactual builds."""
     out = os.path.join(VERIF, "build", variant)
     os.makedirs(out, exist_ok=True)
-    kind = "san" if variant.startswith("san") else "plain"
+    kind = "san" if variant.startswith("san") else "dbg" if variant == "dbg" else "plain"
     cflags, ldflags = variant_flags(kind)
     lines = ["ninja_required_version = 1.5",
              "cxx = g++",
